@@ -111,8 +111,10 @@ fn build(e: &Sexp) -> Option<Box<dyn Scenario>> {
 fn main() {
   std::panic::set_hook(Box::new(|_| {}));
   let args: Vec<String> = std::env::args().collect();
-  let seed: u64 = args.get(1).and_then(|s| s.parse().ok()).unwrap_or(1);
-  let iters: u64 = args.get(2).and_then(|s| s.parse().ok()).unwrap_or(100);
+  // `rxh-conc exact <execution-seed> <strategy>` replays one recorded execution
+  let exact = args.get(1).map(|s| s == "exact").unwrap_or(false);
+  let seed: u64 = args.get(if exact { 2 } else { 1 }).and_then(|s| s.parse().ok()).unwrap_or(1);
+  let iters: u64 = if exact { 1 } else { args.get(2).and_then(|s| s.parse().ok()).unwrap_or(100) };
   let strategy = args.get(3).cloned().unwrap_or_else(|| "random".to_string());
   let stdin = std::io::stdin();
   let stdout = std::io::stdout();
@@ -152,7 +154,7 @@ fn main() {
     let mut seen: HashMap<String, (u64, u64, String)> = HashMap::new(); // payload -> (first seed, count, strategy)
     let mut order: Vec<String> = Vec::new();
     for i in 0..iters {
-      let s = seed.wrapping_mul(1_000_003).wrapping_add(i);
+      let s = if exact { seed } else { seed.wrapping_mul(1_000_003).wrapping_add(i) };
       let strat = if strategy == "mixed" {
         if i % 3 == 2 {
           "pct"
